@@ -129,9 +129,9 @@ def run(ctx) -> None:
     quick = ctx.tier == "quick"
     keys = [k for k in GENERATORS if k != "convex"]
     local: dict = {}
-    seeds_small = 12 if quick else 60
+    seeds_small = 12 if quick else 300
     work = [(k, n, s) for k in keys for n in (3, 4, 5, 6) for s in range(seeds_small)]
-    work += [(k, n, s) for k in keys for n in (7, 8) for s in range(3 if quick else 8) if not (quick and k == "oxs" and n == 8 and s)]
+    work += [(k, n, s) for k in keys for n in (7, 8) for s in range(3 if quick else 24) if not (quick and k == "oxs" and n == 8 and s)]
     work = [w for i, w in enumerate(work) if i % ctx.nshards == ctx.shard]
     rng.shuffle(work)
     base = rng.randint(0, 10**6) * 1000
@@ -147,7 +147,7 @@ def run(ctx) -> None:
         done += 1
     specs = [key for key in local if not exempt_from_seeding(key[0])]
     rng.shuffle(specs)
-    specs = [s for s in specs if s[1] <= 6][: (300 if quick else 2000)]
+    specs = [s for s in specs if s[1] <= 6][: (300 if quick else 4000)]
     cross_process(ctx, specs, local)
 
 
